@@ -47,7 +47,9 @@ def prefixes_in(cond: P):
                 if string_value(x) is not None:
                     out.append(("prefix", string_value(x)))
     for a in find_atoms(cond, lambda a: a[0] == "in" and a[2].key() == "self.line_dispatch"):
-        out.append(("dispatch",))
+        # the first blank-separated token of the line, as the dispatcher takes it
+        if a[1].key().endswith(".split()[0]"):
+            out.append(("dispatch",))
     return out
 
 
@@ -92,7 +94,9 @@ def run(chk):
     chk.rule("R15.5", "the numeric formats the writer emits are in the reader's number language", 6)
     chk.rule("R15.6", "the text reaches the tokenizer as written: from_string splits the contents into lines and changes nothing inside a line "
                       "(a '#' inside a quoted string is data)", 1)
-    for r, f in (("R15.1", r15_1), ("R15.2", r15_2), ("R15.3", r15_3), ("R15.4", r15_4), ("R15.5", r15_5), ("R15.6", r15_6)):
+    chk.rule("R15.7", "the reader's line cursor and item structure: every handler and every scanning loop advances the cursor; an item's name is the "
+                      "first token without its underscore, its value the rest of the line or the next line; loop names, rows and tokens are paired in order", 12)
+    for r, f in (("R15.1", r15_1), ("R15.2", r15_2), ("R15.3", r15_3), ("R15.4", r15_4), ("R15.5", r15_5), ("R15.6", r15_6), ("R15.7", r15_7)):
         if chk.want(r):
             f(chk, mod)
     chk.assume("strings are free of nested quotes, tabs and runs of blanks; semicolon text blocks are not decided")
@@ -149,6 +153,119 @@ def r15_1(chk, mod):
     chk.ob("R15.1", MOD, "Cif.parse_loop_block", "data rows are collected while is_data_line holds", uses)
 
 
+def r15_7(chk, mod):
+    """The reader walks the list of lines with one cursor, self.line_index.  Structural obligations of that walk (typestate of the
+    cursor) and of what is taken from each line."""
+    CUR = "self.line_index"
+    LINE = "self.content_lines[self.line_index]"
+
+    def advances(ev):
+        return [e for e in ev.events if e.kind == "aug" and e.target.key() == CUR]
+
+    def unit(e):
+        return e.op == "Add" and e.value.const_value() == 1          # one line at a time: a larger step skips lines that were never looked at
+
+    def raise_guards(ev):
+        return {(e.guards[-1][0].key(), e.guards[-1][1]) for e in ev.events if e.kind == "raise" and e.guards}
+
+    # (a) every handler the dispatcher can call moves the cursor on, whatever the line was (or the main loop never ends / parses a line twice)
+    for q in ("Cif.parse_data_name", "Cif.parse_loop_block", "Cif.parse_comment_line", "Cif.parse_data_block_name"):
+        if q not in mod.funcs:
+            continue
+        ev = mod.ev(q)
+        chk.saw(MOD, q)
+        rg = raise_guards(ev)
+        always = [e for e in advances(ev) if not e.loops and unit(e) and all((c.key(), not pol) in rg for c, pol in e.guards)]
+        chk.ob("R15.7", MOD, q, "the handler advances the line cursor on every path that returns (by at least one line, outside any condition)",
+               bool(always), fingerprint=f"advance:{q}", found=[f"{'+' if e.op == 'Add' else e.op}{e.value} under {[str(c)[:40] for c, _ in e.guards]}" for e in advances(ev)][:4])
+        # (b) every scanning loop advances in every pass, before anything can leave the pass
+        for l in [l for l in ev.all_loops if l.kind == "while"]:
+            body = [e for e in ev.events if e.loops and e.loops[-1].k == l.k]
+            if not body or CUR not in l.iter.key() and "content_lines" not in l.iter.key() and "line" not in l.iter.key():
+                continue
+            base = min((len(e.guards) for e in body), default=0)
+            steps = [e for e in body if e.kind == "aug" and e.target.key() == CUR and unit(e) and len(e.guards) == base]
+            chk.ob("R15.7", MOD, q, "a loop that scans lines advances the cursor in every pass (unconditionally inside the loop)", bool(steps),
+                   node=l.node, fingerprint=f"loop-advance:{q}:{str(l.iter)[:40]}", found=f"while {str(l.iter)[:80]}")
+    # (c) one item on a line:  _name value...   /   _name  followed by the value on the next line
+    ev = mod.ev("Cif.parse_data_name")
+    st = [e for e in ev.events if e.kind == "store" and "current_data_block" in e.target.key()]
+    chk.need(len(st) == 1, "Cif.parse_data_name: store into the current data block not found")
+    tok = f"{LINE}.strip()[(slice 1 None None)].split()"
+    ta = st[0].target.as_atom()
+    chk.ob("R15.7", MOD, "Cif.parse_data_name", "the item is stored under the first token of the line without its leading underscore",
+           bool(ta and ta[0] == "sub" and len(ta[2]) == 1 and ta[2][0].key() == f"{tok}[0]"), node=st[0].node, fingerprint="item-name",
+           expected=f"{tok}[0]", found=str(ta[2][0])[:120] if ta and ta[0] == "sub" else None)
+    va = st[0].value.as_atom()
+    arg = va[2][0].as_atom() if va and call_name(va) == "parse_value" and va[2] else None
+    okv = bool(arg and arg[0] == "ite" and arg[1].key() == f"(eq 1 len({tok}))" and arg[3].key() == f"' '.join({tok}[(slice 1 None None)])")
+    chk.ob("R15.7", MOD, "Cif.parse_data_name", "the value is the rest of the line (tokens 1.. joined by blanks), or - when the name stands alone on its "
+           "line - what the following line(s) hold", okv, node=st[0].node, fingerprint="item-value",
+           expected=f"parse_value(' '.join(tokens[1:]) unless len(tokens) == 1)", found=str(st[0].value)[:160])
+    nxt = [e for e in ev.events if e.kind == "assign" and e.value is not None and e.value.as_atom() and e.value.as_atom()[0] == "sub"
+           and e.value.as_atom()[1].key() == "self.content_lines" and any(pol and c.key() == f"(eq 1 len({tok}))" for c, pol in e.guards)]
+    chk.ob("R15.7", MOD, "Cif.parse_data_name", "the following line is the one right after the cursor", bool(nxt) and
+           all(e.value.key() == "self.content_lines[1 + self.line_index]" for e in nxt), fingerprint="next-line", found=[str(e.value) for e in nxt][:2])
+    alone = [e for e in advances(ev) if not e.loops and any(c.key() == f"(eq 1 len({tok}))" and pol for c, pol in e.guards)]
+    pairs = {(e.guards[-1][0].key(), e.guards[-1][1]) for e in alone if unit(e)}
+    chk.ob("R15.7", MOD, "Cif.parse_data_name", "a value taken from the following line consumes that line: the cursor moves once more on either way of reading it",
+           len(pairs) == 2 and len({k for k, _ in pairs}) == 1 and {p for _, p in pairs} == {True, False}, fingerprint="consume-next",
+           found=sorted(pairs))
+    # (d) a loop: names, rows, tokens
+    lv = mod.ev("Cif.parse_loop_block")
+    apps = [e for e in lv.events if e.kind == "call" and e.target is not None and e.target.key().endswith(".append") and e.extra.get("args")]
+    names = [e for e in apps if e.loops and e.loops[-1].kind == "while" and "startswith('_')" in e.loops[-1].iter.key()]
+    chk.ob("R15.7", MOD, "Cif.parse_loop_block", "a loop's names are its '_' lines without the underscore, one per line, while such lines follow", len(names) == 1
+           and names[0].extra["args"][0].key().endswith(".strip()[(slice 1 None None)]") and "content_lines[self.line_index]" in names[0].extra["args"][0].key()
+           and names[0].extra["args"][0].key().split(".strip()")[0] in names[0].loops[-1].iter.key(), fingerprint="loop-names",
+           found=[str(e.extra["args"][0])[:100] for e in names])
+    rows = [e for e in apps if e.loops and e.loops[-1].kind == "while" and "is_data_line" in e.loops[-1].iter.key()]
+    chk.ob("R15.7", MOD, "Cif.parse_loop_block", "a loop's rows are the (stripped) lines for which is_data_line holds, the line tested being the line kept",
+           len(rows) == 1 and rows[0].extra["args"][0].key().endswith(".strip()") and rows[0].extra["args"][0].key()[:-len(".strip()")] in rows[0].loops[-1].iter.key(),
+           fingerprint="loop-rows", found=[str(e.extra["args"][0])[:100] for e in rows])
+    def in_block(t):
+        """does the target term live in the current data block (directly or through a local bound to it)?"""
+        k_ = t.key()
+        if "current_data_block" in k_:
+            return True
+        return any("current_data_block" in obj_init(P.atom(a)).key() for a in find_atoms(t, lambda a: a[0] == "obj"))
+    cells = [e for e in apps if in_block(e.target) and e.loops and e.loops[-1].kind == "zip"]
+    okc = False
+    if len(cells) == 1 and names and rows:
+        z = cells[0].loops[-1]
+        za = z.iter.as_atom() if z.iter is not None else None
+        args = za[2] if za and za[0] == "call" else ()
+        kobj = names[0].target.as_atom()[1].key()
+        robj = rows[0].target.as_atom()[1].key()
+        tgt = cells[0].target.as_atom()[1].as_atom()
+        val = cells[0].extra["args"][0].as_atom()
+        toks = args[1].key() if len(args) == 2 else ""
+        from_rows = toks.startswith(f"re.findall(VALUES_REGEX, {robj}[") and toks.endswith(")") or \
+            (toks.startswith("(comp ListComp re.findall(VALUES_REGEX, ") and f"((iter {robj} ()))" in toks)       # rows tokenised beforehand, one list per row
+        okc = bool(len(args) == 2 and args[0].key() == kobj and from_rows
+                   and tgt and tgt[0] == "sub" and tgt[2][0].key() == f"{kobj}[{z.index}]" and val and call_name(val) == "parse_value"
+                   and val[2][0].key() == f"{args[1]}[{z.index}]")
+    chk.ob("R15.7", MOD, "Cif.parse_loop_block", "token j of every row goes, parsed once, to the column of name j (zip of the names with the row's tokens "
+           "from VALUES_REGEX)", okc, fingerprint="loop-cells", found=[str(e.value)[:140] for e in cells][:1])
+    inits = [e for e in lv.events if e.kind == "store" and "current_data_block" in e.target.key() and e.value.key() == "(tuple ())" and e.loops]
+    okinit = len(inits) == 1 and bool(names) and inits[0].loops[-1].iter is not None and inits[0].loops[-1].iter.key() == names[0].target.as_atom()[1].key()
+    if not inits and names:
+        # block.update((k, []) for k in keys)
+        for e in lv.events:
+            if e.kind == "call" and e.target is not None and e.target.key().endswith(".update") and in_block(e.target) and e.extra.get("args"):
+                ca_ = e.extra["args"][0].as_atom()
+                if ca_ and ca_[0] == "comp" and len(ca_) == 4 and len(ca_[3]) == 1 and not ca_[3][0][2] and ca_[3][0][1].key() == names[0].target.as_atom()[1].key():
+                    pr = seq_items(ca_[2])
+                    okinit = bool(pr and len(pr) == 2 and pr[1].key() == "(tuple ())" and pr[0].key().startswith(names[0].target.as_atom()[1].key() + "["))
+    chk.ob("R15.7", MOD, "Cif.parse_loop_block", "every name of the loop starts with an empty column (also when the loop has no rows)", okinit,
+           fingerprint="loop-columns", found=[str(e.target)[:80] for e in inits])
+    # (e) data_<name>
+    bv = mod.ev("Cif.parse_data_block_name")
+    bs = [e for e in bv.events if e.kind == "store" and e.target.key() == "self.current_data_block_name"]
+    chk.ob("R15.7", MOD, "Cif.parse_data_block_name", "the block name is the line after its five characters 'data_'", len(bs) == 1 and
+           bs[0].value.key() == f"{LINE}[(slice 5 None None)].strip()", fingerprint="block-name", found=[str(e.value) for e in bs])
+
+
 def r15_2(chk, mod):
     q = "parse_value"
     ev = mod.ev(q)
@@ -161,7 +278,8 @@ def r15_2(chk, mod):
         for c, pol in e.guards:
             if not pol:
                 continue
-            for a in find_atoms(c, lambda a: a[0] == "eq"):
+            # the equality is itself a condition that holds on this path (a conjunct), not one arm of an `or`
+            for a in ([c.as_atom()] if c.as_atom() and c.as_atom()[0] == "eq" else []):
                 ks = {a[1].key(), a[2].key()}
                 if f"len({s})" in ks and any(".span()[1]" in k or ".end()" in k for k in ks):
                     full = True
@@ -264,6 +382,22 @@ def r15_3(chk, mod):
     pred_scalar = [e for e in ts.events if e.kind == "call" and call_name(e.value.as_atom() or ()) == "needs_quote"]
     pred_loop = [e for e in ff.events if e.kind == "call" and call_name(e.value.as_atom() or ()) == "needs_quote"]
     chk.ob("R15.3", MOD, "Cif.to_string", "scalar items are quoted by the predicate needs_quote", bool(pred_scalar))
+    # ... and written: one line `_name value` per scalar item of the block (name and value of the same item, the value between the quotes)
+    from .generic import list_appends as _la
+    sc_lines = [e for e in ts.events if e.kind == "call" and e.target is not None and e.target.key().endswith(".append") and e.extra.get("args")
+                and any(pol and "is_scalar(" in c.key() for c, pol in e.guards)]
+    oksc = False
+    for e in sc_lines:
+        pcs = pieces_of(e.extra["args"][0])
+        if not pcs:
+            continue
+        fm_ = [p_ for p_ in pcs if p_.kind == "fmt"]
+        vals = [p_.value.key() for p_ in fm_]
+        item = [l for l in e.loops if l.kind in ("items", "iter", "zip")]
+        oksc = oksc or (pcs[0].kind == "lit" and pcs[0].text == "_" and len(fm_) >= 2 and any(c.key() == f"is_scalar({v})" for v in vals for c, pol in e.guards if pol)
+                        and any(p_.kind == "lit" and p_.text.strip() == "" and p_.text != "" for p_ in pcs[1:]))
+    chk.ob("R15.3", MOD, "Cif.to_string", "every scalar item is written as a line `_name value` (the value that was tested, between the quotes)", oksc,
+           fingerprint="scalar-line", found=[str(e.extra["args"][0])[:100] for e in sc_lines][:2])
     chk.ob("R15.3", MOD, "format_field", "loop fields are quoted by the same predicate needs_quote", bool(pred_loop))
     # what the predicate must say yes to: a string that written bare would not be read back as that one value
     nq = mod.ev("needs_quote")
@@ -321,6 +455,68 @@ def r15_3(chk, mod):
             has_space = has_space or any(x.as_atom() and x.as_atom()[0] == "in" and string_value(x.as_atom()[1]) == " " for x in ra[1])
         elif ra and ra[0] == "in":
             has_space = has_space or string_value(ra[1]) == " "
+    # the predicate as a truth table: its tests are Boolean features of the string (empty, contains a blank, contains ' / ", starts with a
+    # reserved character / keyword); over all combinations the answer must be  empty or (no quote mark and (reserved start or blank)).
+    # (A test the table does not know - the number pattern of the open finding - is a further feature; with it false the table must hold.)
+    sp_ = nq.param_names[0]
+
+    def feature(c):
+        a = c.as_atom()
+        k = c.key()
+        if a is None:
+            return None
+        if a[0] == "in" and string_value(a[1]) == " " and a[2].key() == sp_:
+            return "blank"
+        if a[0] == "in" and string_value(a[1]) in ("'", '"') and a[2].key() == sp_:
+            return "quote" + string_value(a[1])
+        if a[0] == "in" and a[1].key() == f"{sp_}[0]" and string_value(a[2]) is not None:
+            return "first-char" if set("_#$;") <= set(string_value(a[2])) else None
+        if a[0] == "call" and call_name(a) == ".startswith" and a[1].as_atom()[1].key() == sp_ and a[2]:
+            pre = {string_value(x) for x in (seq_items(a[2][0]) or [a[2][0]])}
+            return "keyword" if {"data_", "loop_"} <= pre else None
+        if k in (f"(eq '' {sp_})", f"(eq {sp_} '')", f"(eq 0 len({sp_}))"):
+            return "empty"
+        if k == f"isinstance({sp_}, str)":
+            return "is-str"
+        return None
+
+    def truth(c, env, unknown):
+        a = c.as_atom()
+        if c.key() in ("True", "False"):
+            return c.key() == "True"
+        f = feature(c)
+        if f is not None:
+            return env[f]
+        if a and a[0] in ("or", "and"):
+            vals = [truth(x, env, unknown) for x in a[1]]
+            return any(vals) if a[0] == "or" else all(vals)
+        if a and a[0] == "not":
+            return not truth(a[1], env, unknown)
+        if a and a[0] == "ite":
+            return truth(a[2] if truth(a[1], env, unknown) else a[3], env, unknown)
+        if c.key() == sp_:
+            return not env["empty"]
+        unknown.add(c.key()[:60])
+        return False
+    import itertools as _it
+    feats = ["empty", "blank", "quote'", 'quote"', "first-char", "keyword"]
+    wrong, unknown = [], set()
+    for bits in _it.product((False, True), repeat=len(feats)):
+        env = dict(zip(feats, bits))
+        env["is-str"] = True
+        if env["empty"] and any(env[f] for f in feats[1:]):
+            continue                         # the empty string has none of the other features
+        got = None
+        for r in nq.returns:
+            if all(truth(c, env, unknown) == pol for c, pol in r.guards):
+                got = truth(r.value, env, unknown)
+                break
+        want = env["empty"] or (not (env["quote'"] or env['quote"']) and (env["first-char"] or env["keyword"] or env["blank"]))
+        if got != want:
+            wrong.append(("+".join(f for f in feats if env[f]) or "plain word") + f": {got}, should be {want}")
+    chk.ob("R15.3", MOD, "needs_quote", "over every combination of its tests (empty, blank, quote marks, reserved first character, reserved keyword) the "
+           "predicate answers: empty, or no quote mark and (reserved start or blank)", not wrong, fingerprint="quote-truth-table",
+           expected="quote <=> empty or (no ' and no \" and (reserved start or blank))", found=(wrong[:3] + ([f"tests outside the table: {sorted(unknown)}"] if unknown else [])))
     chk.ob("R15.3", MOD, "needs_quote", "strings containing a blank are the ones that get quoted (unquoted strings are one \\S+ token)",
            has_space, found=str(last))
     # tokenizer: quoted alternatives come before \S+
@@ -356,6 +552,23 @@ def r15_3(chk, mod):
                 it = seq_items(a[2])
                 if it:
                     stripped.update(string_value(x) for x in it if string_value(x))
+    # ... and only such a value: the quotes are taken off when the first and the last character are the same AND that character is a
+    # delimiter, with that character as the delimiter
+    pq = [r for r in pv.returns if r.value is not None and call_name(r.value.as_atom() or ()) == "parse_quote"]
+    okq = bool(pq)
+    for r in pq:
+        held = [c.as_atom() for c, pol in r.guards if pol and c.as_atom()]
+        same_ends = [a for a in held if a[0] == "eq" and a[1].as_atom() and a[2].as_atom() and a[1].as_atom()[0] == "sub" and a[2].as_atom()[0] == "sub"
+                     and a[1].as_atom()[1].key() == a[2].as_atom()[1].key()
+                     and {x.as_atom()[2][0].const_value() for x in (a[1], a[2]) if len(x.as_atom()[2]) == 1} == {0, -1}]
+        is_delim = [a for a in held if a[0] == "in" and a[1].key().endswith("[0]") and seq_items(a[2]) is not None]
+        kw_ = dict(r.value.as_atom()[3]) if len(r.value.as_atom()) > 3 and r.value.as_atom()[3] else {}
+        dl = kw_.get("delimiter") or (r.value.as_atom()[2][1] if len(r.value.as_atom()[2]) > 1 else None)
+        okq = okq and bool(same_ends) and bool(is_delim) and dl is not None and dl.key() == is_delim[0][1].key() \
+            and same_ends[0][1].as_atom()[1].key() == is_delim[0][1].as_atom()[1].key()
+    chk.ob("R15.3", MOD, "parse_value", "quotes are taken off only when the first and the last character are the same delimiter character, and with that "
+           "character as the delimiter", okq, fingerprint="strip-condition", expected="s[0] == s[-1] and s[0] in (delimiters): parse_quote(string, delimiter=s[0])",
+           found=[f"{'' if p else 'not '}{str(c)[:70]}" for r in pq for c, p in r.guards][-3:])
     for d in sorted(delims):
         chk.ob("R15.3", MOD, "parse_value", f"a value delimited by {d!r} loses its quotes on parsing", d in stripped,
                fingerprint=f"strip:{d}", found=sorted(stripped))
@@ -591,6 +804,11 @@ def r15_6(chk, mod):
     q = "Cif.from_string"
     ev = mod.ev(q)
     chk.saw(MOD, q)
+    parses = [e for e in ev.events if e.kind == "call" and e.target is not None and e.target.key().endswith(".parse") and not e.guards and not e.loops]
+    ret = ev.returns[-1].value if ev.returns else None
+    chk.ob("R15.6", MOD, q, "from_string parses the text it was given: parse() is called, unconditionally, on the object that is returned",
+           bool(parses) and ret is not None and parses[0].target.key() == f"{ret}.parse" or bool(parses) and ret is not None and ret.as_atom() and ret.as_atom()[0] == "obj"
+           and parses[0].target.as_atom()[1].key() == ret.key(), fingerprint="parses", found=[str(e.target)[:60] for e in parses])
     st = [e for e in ev.events if e.kind == "store" and e.target.key().endswith(".content_lines")]
     chk.need(len(st) == 1, f"{q}: store of content_lines not found")
     v = st[0].value
